@@ -1039,6 +1039,14 @@ int dsh(opt_t * opt)
     /* install signal handlers */
     _xsignal(SIGALRM, _alarm_handler);
 
+    /*
+     *  The exit status of a command started through pipecmd is collected
+     *   with waitpid(). If pdsh was started with SIGCHLD ignored, the
+     *   kernel reaps its children itself, waitpid() fails and every
+     *   command would seem to have succeeded.
+     */
+    _xsignal(SIGCHLD, SIG_DFL);
+
     if (opt->sigint_terminates)
         sigint_terminates = 1;
 
